@@ -81,6 +81,11 @@ Definition slice_elems (v : val) : option (list val) :=
   | VS (SBytes b) => Some (map (fun c => VS (SInt (Z.of_N (ccode c)))) (s2l b))
   | _ => None
   end.
+(* the primary-key arm (70948e8): the only argument is a LIST of keys when its kind is slice or array and
+   it is not a []byte (element type uint8 itself) - a []byte, also as the Value() of a driver.Valuer,
+   is one key *)
+Definition key_elems (v : val) : option (list val) :=
+  match v with VList _ l => Some l | _ => None end.
 Definition map_entry_cond (x : val) : list val :=
   match x with
   | VNamed key v =>
@@ -121,7 +126,7 @@ Fixpoint gen_conds (nargs : nat) (all : list val) (l : list val) (conds : list v
         else match conds with
              | _ :: _ => conds
              | [] =>
-               match (if (nargs =? 1)%nat then slice_elems a' else None) with
+               match (if (nargs =? 1)%nat then key_elems a' else None) with
                | Some [] => []
                | Some vs => [VIn primary_column vs]
                | None => [VIn primary_column all]
